@@ -7,6 +7,7 @@ After a `panic` answer the case is dead: further lines of the case answer `dead`
 import HvSim.Model.Sim
 import HvSim.Model.Enum
 import HvSim.Model.Inline
+import HvSim.Model.Trace
 open HvSim
 
 abbrev H := Hook Nat Nat
@@ -151,6 +152,36 @@ def showState (h : H) : String :=
     | .tlKeyedMerge m1 m2 _ => s!"m={showMap m1} m2={showMap m2}"
   s!"{body} cur={showOptB h.cur}"
 
+
+/-- what is still pending in a hook (the `rest` part of an outcome) -/
+def showRest (h : H) : String :=
+  match h with
+  | .streamTotal q _ | .streamNo q _ | .passthrough q _ _ | .tlOrder q _ | .tlFold q _ => showList q
+  | .singleton s => showList s.q
+  | .keyedTotal m _ | .keyedNo m _ | .keyedSingleton m _ _ | .tlKeyedOrder m _ | .tlPartial m _ => showMap m
+  | .tlMerge q1 q2 _ => s!"{showList q1}+{showList q2}"
+  | .tlKeyedMerge m1 m2 _ => s!"{showMap m1}+{showMap m2}"
+
+def showEv : Ev → String
+  | .auto i f nt => s!"a{i}:{if f then 1 else 0}:{if nt then 1 else 0}"
+  | .rel i => s!"r{i}"
+def showEvs (ev : List Ev) : String := if ev.isEmpty then "-" else ",".intercalate (ev.map showEv)
+
+/-- the decision flag of hook `i` in a `run_hooks` call: what its `autonomous_decision` call returned,
+or the decision it already carried -/
+def ntOf (before : List H) (ev : List Ev) (i : Nat) : Bool :=
+  match ev.findSome? (fun e => match e with | .auto j _ nt => if j == i then some nt else none | .rel _ => none) with
+  | some nt => nt
+  | none => (before[i]?.bind Hook.cur).getD false
+
+/-- the decision vector of a `run_hooks` call: per hook `nontrivial/released/remaining`, joined by `|` -/
+def showVector (before after : List H) (outs : List (List (Msg Nat Nat))) (ev : List Ev) : String :=
+  let comps := (List.range after.length).map fun i =>
+    match after[i]?, outs[i]? with
+    | some h, some o => s!"{if ntOf before ev i then 1 else 0}/{showMsgs o}/{showRest h}"
+    | _, _ => "?"
+  "|".intercalate comps
+
 /-! ### operations -/
 
 def pushQ (h : H) (second : Bool) (items : List Nat) : Option H :=
@@ -243,11 +274,30 @@ def step (st : St) (line : String) : St × String :=
     | ["run", t] =>
       match parseList "," t with
       | some tape =>
-        match runHooks st.hooks ⟨tape, []⟩ with
-        | some (hs, outs, _, d) =>
-          ({ st with hooks := hs }, s!"outs={"|".intercalate (outs.map showMsgs)} calls={showCalls d.log}")
+        match runHooksT st.hooks ⟨tape, []⟩ with
+        | some (hs, outs, _, d, ev) =>
+          ({ st with hooks := hs }, s!"outs={"|".intercalate (outs.map showMsgs)} calls={showCalls d.log} ev={showEvs ev}")
         | none => ({ st with dead := true }, "panic")
       | none => (st, "bad-op")
+    | ["xrun", t] =>
+      -- `run_hooks` on a copy of the tick: the state is left as it is
+      match parseList "," t with
+      | some tape =>
+        match runHooksT st.hooks ⟨tape, []⟩ with
+        | some (hs, outs, _, d, ev) =>
+          (st, s!"vec={showVector st.hooks hs outs ev} calls={showCalls d.log} ev={showEvs ev}")
+        | none => (st, "panic")
+      | none => (st, "bad-op")
+    | ["enumrun"] =>
+      -- the set of decision vectors `run_hooks` reaches on this tick over all tapes (depth-first search
+      -- over the model's decision tree, as bolero's exhaustive driver does on the real code)
+      let run := fun (tape : List Nat) =>
+        match runHooksT st.hooks ⟨tape, []⟩ with
+        | none => none
+        | some (hs, outs, _, d, ev) => some (showVector st.hooks hs outs ev, d.log)
+      let outs := (dfs run [] #[]).toList.map fun o => o.getD "panic"
+      let distinct := (outs.toArray.qsort (· < ·)).toList.eraseDups
+      (st, s!"n={outs.length} set={" ".intercalate distinct}")
     | "enum" :: kind :: f :: rest =>
       match (parseArgs rest {}).bind (mkHook kind), (if f == "0" then some false else if f == "1" then some true else none) with
       | some h, some force =>
